@@ -274,6 +274,14 @@ class Parser:
             else:
                 return expr
 
+    def parse_number(self, token: Token) -> int:
+        """Return the value of a NUMBER or INTEGER token, a 32 bit integer in pest."""
+        if len(token.value) <= 11:  # noqa: PLR2004
+            value = int(token.value)
+            if -0x80000000 <= value <= 0xFFFFFFFF:  # noqa: PLR2004
+                return value
+        raise PestGrammarSyntaxError("number is too big", token=token)
+
     def parse_repeat_expression(self, expr: Expression) -> Expression:
         token = self.next()
         kind = token.kind
@@ -282,22 +290,24 @@ class Parser:
             number = token
             if self.current().kind == TokenKind.RBRACE:
                 self.pos += 1
-                return RepeatExact(expr, int(number.value))
+                return RepeatExact(expr, self.parse_number(number))
 
             self.eat(TokenKind.COMMA)
 
             if self.current().kind == TokenKind.RBRACE:
                 self.pos += 1
-                return RepeatMin(expr, int(number.value))
+                return RepeatMin(expr, self.parse_number(number))
 
             stop = self.eat(TokenKind.NUMBER)
             self.eat(TokenKind.RBRACE)
-            return RepeatMinMax(expr, int(number.value), int(stop.value))
+            return RepeatMinMax(
+                expr, self.parse_number(number), self.parse_number(stop)
+            )
 
         if kind == TokenKind.COMMA:
             number = self.eat(TokenKind.NUMBER)
             self.eat(TokenKind.RBRACE)
-            return RepeatMax(expr, int(number.value))
+            return RepeatMax(expr, self.parse_number(number))
 
         raise PestGrammarSyntaxError("expected a number or a comma", token=token)
 
@@ -307,14 +317,14 @@ class Parser:
 
         self.eat(TokenKind.LBRACKET)
         if self.current().kind == TokenKind.INTEGER:
-            start: str | None = self.next().value
+            start: str | None = str(self.parse_number(self.next()))
         else:
             start = None
 
         self.eat(TokenKind.RANGE_OP)
 
         if self.current().kind == TokenKind.INTEGER:
-            stop: str | None = self.next().value
+            stop: str | None = str(self.parse_number(self.next()))
         else:
             stop = None
 
